@@ -122,7 +122,14 @@ def run_case(case, ctx):
         dkw["interval"] = iv
     d = ctx.call("distance", fn["dist"], *args, **dkw)
     f = ctx.call("profile", fn["profile"], *args, **kw)
+    # averaging over a very short interval divides an integral (absolute rounding
+    # error ~ 1e-16 * recording length) by the interval length: the tolerance
+    # grows with recording length / averaging length
     tol = 1e-10
+    if case["interval"] is not None:
+        ivs = M.intervals_list(case["interval"])
+        ln = float(sum(b - a for a, b in ivs))
+        tol = max(tol, 1e-12 * (case["t1"] - case["t0"]) / ln)
     model = M.model_of(f)
     if fn["kind"] in ("pwc", "pwl"):
         a = ctx.call("profile.avrg", f.avrg, iv)
@@ -147,3 +154,15 @@ def run_case(case, ctx):
         ctx.check(ps.close(d, a, tol), "value_vs_profile_avrg",
                   lambda: "%s value=%r profile.avrg=%r interval=%r"
                   % (case["measure"], float(d), float(a), case["interval"]))
+    if case["form"] != "args" and not case.get("_edited"):
+        # the caller edits one of the trains in the list it already passed and asks
+        # again with the same list object: the relation must hold for the new content
+        new = ps.edit_in_place(sts[0])
+        d2 = ctx.call("distance_after_edit", fn["dist"], *args, **dkw)
+        f2 = ctx.call("profile_after_edit", fn["profile"], *args, **kw)
+        a2 = ctx.call("profile.avrg_after_edit", f2.avrg, iv)
+        ctx.check(ps.close(d2, a2, tol) or (float(d2) != float(d2) and float(a2) != float(a2)),
+                  "after_in_place_edit",
+                  lambda: "%s: after editing train 0 in place (now %r) and calling again with "
+                          "the same list: value=%r, average of its profile=%r (before the "
+                          "edit: %r)" % (case["measure"], new, float(d2), float(a2), float(d)))
